@@ -1,13 +1,11 @@
-/- Chunk 8 of the exhaustive C04 check: guard assignments 256 ≤ m < 288, all four cursor-flag
-   combinations, evaluated by the kernel (`decide +kernel`) on the lists regenerated from vaxis.go. -/
-import VaxisModel.Lemmas.C04Check
+/- Chunk 8 of the exhaustive C04 check: guard assignments 256 ≤ m < 288, all four visibility-flag
+   combinations of the two cursor records, evaluated by the kernel (`decide +kernel`) on the *symbolic*
+   lifecycle (run-time values are holes) interpreted from the lists regenerated from vaxis.go. -/
+import VaxisModel.Lemmas.C04SymCheck
 
-namespace VaxisModel.Lemmas.C04Check
-
-set_option maxRecDepth 100000 in
-theorem balanced_chunk08 : chunkB balancedB 256 288 = true := by decide +kernel
+namespace VaxisModel.Lemmas.C04SymCheck
 
 set_option maxRecDepth 100000 in
-theorem resume_chunk08 : chunkB resumeB 256 288 = true := by decide +kernel
+theorem sym_chunk08 : chunkB 256 288 = true := by decide +kernel
 
-end VaxisModel.Lemmas.C04Check
+end VaxisModel.Lemmas.C04SymCheck
